@@ -322,6 +322,9 @@ def _run(ctx):
     confs += [((5, 5), 4.2, 2, None), ((4, 4), 1, 1, "Si")]
     # non-integer diameters whose ceiling is even (3.5, 5.5: size must be rounded UP to odd) and odd (2.5, 4.5), always
     confs += [((7, 8), 3.5, (ctx.seed + 1) % 3, None), ((8, 8), 5.5, ctx.seed % 3, "Si"), ((6, 6), 2.5, 2, "Si"), ((7, 6), 4.5, 0, None)]
+    # strongly elongated designs, both orientations (seed C25i: an iteration bound derived from one side length only
+    # cuts the generator short when the other side is much longer)
+    confs += [((3, 64), 3, ctx.seed % 3, None), ((64, 3), 3, (ctx.seed + 1) % 3, "Si"), ((4, 72), 3, (ctx.seed + 2) % 3, None)]
     kinds = ["noise", "blob", "stripes", "ties", "pm1", "const"] + (["noise", "blob", "blob", "pm1"] if ctx.thorough else [])
     todo = []
     for (shape, diam, axis, bg) in confs:
